@@ -129,7 +129,7 @@ func main() {
 			common.CROSS_VALIDATION_HEADER_AGREEMENT_THRESHOLD: fmt.Sprint(c.T),
 		}
 		pm := chainlib.NewProtocolMessage(chainMsg, headers, nil, "dapp", "127.0.0.1")
-		ctx, cancel := context.WithTimeout(context.Background(), 3*time.Second)
+		ctx, cancel := context.WithCancel(context.Background()) // no deadline: every response is queued before the wait
 		used := lavasession.NewUsedProviders(nil)
 		pol := relaypolicy.NewPolicy(relaypolicy.PolicyConfig{MaxRetries: 10, RelayRetryLimit: 2, DisableBatchRetry: true, SendRelayAttempts: 3})
 		sm, err := relaycore.NewUnifiedRelayStateMachine(ctx, used, &senderMock{pm: pm}, pm, nil, false,
@@ -153,6 +153,9 @@ func main() {
 			rp.SetResponse(resp)
 		}
 		waitErr := rp.WaitForResults(ctx)
+		if waitErr != nil {
+			hx.Die("WaitForResults returned %v although every response was queued", waitErr)
+		}
 		met, _ := rp.HasRequiredNodeResults(1)
 		count := func() (M, int, int, int, int) {
 			succ, nodeErrs, protoErrs := rp.GetResultsData()
